@@ -10,16 +10,16 @@ import random
 import sys
 from pathlib import Path
 
-ROOT_ENGINES = ["SEA", "SEAX", "GA", "ADAPT", "MWEA", "DE", "DEd", "SHADE", "LHS", "SOBOL"]
+ROOT_ENGINES = ["SEA", "SEAX", "GA", "ADAPT", "MWEA", "DE", "DEd", "SHADE", "LHS", "SOBOL", "CUSTOM"]
 CHILD_ENGINES = ["SEA", "SEAX", "GA", "ADAPT", "MWEA", "DE", "DEd", "SHADE", "CMA", "CMAw", "CMAs", "LOCAL",
-                 "LHS", "SOBOL", "CMA", "LOCAL", "CMA"]
+                 "LHS", "SOBOL", "CMA", "LOCAL", "CMA", "CUSTOM"]
 BOX = ["sym", "asym", "decimal", "tiny", "huge", "unit"]
 FNS = ["sphere", "multi", "funnels", "plateau", "zero", "linear"]
 
 
 def _level(r: random.Random, engine: str, depth: int, nlevels: int, lowmut: bool) -> dict:
     lv = {"engine": engine}
-    if engine in ("SEA", "SEAX", "GA", "ADAPT"):
+    if engine in ("SEA", "SEAX", "GA", "ADAPT", "CUSTOM"):
         lv.update(pop=r.choice([4, 5, 6, 8]), gens=r.choice([1, 2, 2, 3]), k_elites=r.choice([1, 1, 2]))
         if lowmut:
             lv["p_mutation"] = r.choice([0.3, 0.6])
